@@ -31,6 +31,8 @@ struct Case<'a> {
     tb: &'a Tables,
     texts: &'a [Vec<u8>],
     ks: &'a [i64],
+    /// build the matcher from this (reused) builder instead of a fresh one made from `tb`
+    builder: Option<&'a bio::pattern_matching::myers::MyersBuilder>,
 }
 
 thread_local! {
@@ -78,12 +80,18 @@ fn run_one(log: &mut Log, tag: &str, c: &Case) {
             built = true;
             if active {
                 log.call("new", json!({}), || {
-                    mx = Some(build(c.long_impl, c.w, c.p, c.tb));
+                    mx = Some(match c.builder {
+                        Some(b) => build_from(b, c.long_impl, c.w, c.p),
+                        None => build(c.long_impl, c.w, c.p, c.tb),
+                    });
                     json!({})
                 });
             } else {
                 // run skipped after a restart: the object is still needed for the later parts
-                mx = std::panic::catch_unwind(|| build(c.long_impl, c.w, c.p, c.tb)).ok();
+                mx = std::panic::catch_unwind(|| match c.builder {
+                        Some(b) => build_from(b, c.long_impl, c.w, c.p),
+                        None => build(c.long_impl, c.w, c.p, c.tb),
+                    }).ok();
             }
         }
         let mx = match &mx {
@@ -217,7 +225,7 @@ pub fn drive(log: &mut Log) {
                 continue;
             }
             let ks: Vec<i64> = (0..=(p.len() as i64 + 1)).collect();
-            run_one(log, "ex", &Case { long_impl, w: 8, p, tb: &none, texts: &texts, ks: &ks });
+            run_one(log, "ex", &Case { long_impl, w: 8, p, tb: &none, texts: &texts, ks: &ks, builder: None });
             log.oblige("exhaustive_small");
         }
     }
@@ -269,7 +277,7 @@ pub fn drive(log: &mut Log) {
                 log.oblige("k_ge_m");
                 log.oblige("k_255");
                 log.oblige("empty_text");
-                run_one(log, "sw", &Case { long_impl: false, w, p: &p, tb: &tb, texts: &texts, ks: &ks });
+                run_one(log, "sw", &Case { long_impl: false, w, p: &p, tb: &tb, texts: &texts, ks: &ks, builder: None });
             }
         }
     }
@@ -334,7 +342,7 @@ pub fn drive(log: &mut Log) {
             if !tb.is_empty() {
                 log.oblige("long_tables");
             }
-            run_one(log, "lg", &Case { long_impl: true, w, p: &p, tb: &tb, texts: &texts, ks: &ks });
+            run_one(log, "lg", &Case { long_impl: true, w, p: &p, tb: &tb, texts: &texts, ks: &ks, builder: None });
         }
     }
 
@@ -375,7 +383,7 @@ pub fn drive(log: &mut Log) {
             texts.push(t);
         }
         log.oblige("long_unary_run_to_block_boundary");
-        run_one(log, "ur", &Case { long_impl: true, w, p: &p, tb: &none, texts: &texts, ks: &[0, 1, 2] });
+        run_one(log, "ur", &Case { long_impl: true, w, p: &p, tb: &none, texts: &texts, ks: &[0, 1, 2], builder: None });
     }
 
     // (e) block-based version: the edit budget is used up exactly at a block seam (see
@@ -405,7 +413,7 @@ pub fn drive(log: &mut Log) {
                             let texts = vec![t];
                             let ki = k as i64;
                             log.oblige("long_budget_exhausted_at_seam");
-                            run_one(log, "sb", &Case { long_impl: true, w, p: &p, tb: &none, texts: &texts, ks: &[ki - 1, ki, ki + 1] });
+                            run_one(log, "sb", &Case { long_impl: true, w, p: &p, tb: &none, texts: &texts, ks: &[ki - 1, ki, ki + 1], builder: None });
                         }
                     }
                 }
@@ -430,7 +438,83 @@ pub fn drive(log: &mut Log) {
         PROFILE.with(|cell| *cell.borrow_mut() = Some((wt.k, wt.profile.clone())));
         let texts = vec![wt.t.clone()];
         let ks: Vec<i64> = if wt.k > 0 { vec![wt.k - 1, wt.k, wt.k + 1] } else { vec![wt.k, wt.k + 1] };
-        run_one(log, "gs", &Case { long_impl: true, w: wt.w, p: &wt.p, tb: &none, texts: &texts, ks: &ks });
+        run_one(log, "gs", &Case { long_impl: true, w: wt.w, p: &wt.p, tb: &none, texts: &texts, ks: &ks, builder: None });
+    }
+
+    // (g) block-based matcher built by MyersBuilder: a text wildcard swept over every position
+    //     of an occurrence (so it meets the first row, the last row and the inside of every
+    //     block), and an ambiguous pattern symbol on the first row of every block with each
+    //     base under it
+    let nsw = log.opts.n(2, 10);
+    for &w in &[8usize, 16] {
+        for variant in 0..nsw {
+            case += 1;
+            if !log.mine(case) {
+                continue;
+            }
+            let mut rng = Rng::new(seed, 16, case);
+            let m = 2 * w + 1 + rng.below(w as u64) as usize;
+            let mut tb = Tables::default();
+            tb.wild.push(b'*');
+            tb.ambig.push((b'N', b"ACGT".to_vec()));
+            let p = rng.seq(m, b"ACGT");
+            let mut texts: Vec<Vec<u8>> = vec![];
+            for i in 0..m {
+                let mut t = rng.seq(3, b"ACGT");
+                let mut q = p.clone();
+                q[i] = b'*';
+                t.extend(q);
+                t.extend(rng.seq(2, b"ACGT"));
+                texts.push(t);
+            }
+            log.oblige("long_wildcard_swept_over_block_seams");
+            run_one(log, "ws", &Case { long_impl: true, w, p: &p, tb: &tb, texts: &texts, ks: &[0, 1], builder: None });
+            if variant == 0 {
+                // N on the first row of every block (and next to the seams)
+                let mut p2 = p.clone();
+                let mut i = 0;
+                while i < m {
+                    p2[i] = b'N';
+                    i += w;
+                }
+                p2[w - 1] = b'N';
+                let mut texts2: Vec<Vec<u8>> = vec![];
+                for &b in b"ACGTN" {
+                    let mut t = rng.seq(4, b"ACGT");
+                    t.extend(p2.iter().map(|&c| if c == b'N' { b } else { c }));
+                    t.extend(rng.seq(3, b"ACGT"));
+                    texts2.push(t);
+                }
+                log.oblige("long_ambig_on_block_first_rows");
+                run_one(log, "ws", &Case { long_impl: true, w, p: &p2, tb: &tb, texts: &texts2, ks: &[0, 1], builder: None });
+            }
+        }
+    }
+
+    // (h) builder histories: ONE MyersBuilder re-configured between builds (the same ambiguity
+    //     byte defined again: widened, narrowed, reset; wildcard added); after every stage a
+    //     matcher is built from it. The run header lists all calls made on the builder so far.
+    let nbh = log.opts.n(8, 48);
+    for i in 0..nbh {
+        case += 1;
+        if !log.mine(case) {
+            continue;
+        }
+        let mut rng = Rng::new(seed, 17, case);
+        let long_impl = i % 2 == 0;
+        let w = if long_impl { [8usize, 8, 16][(i as usize / 2) % 3] } else { 64 };
+        let wb = if long_impl { w } else { 8 };
+        let m = wb + 1 + rng.below(2 * wb as u64) as usize;
+        let (p, texts) = ambig_pattern_and_texts(&mut rng, m, wb);
+        let mut h = BuilderHistory::new();
+        for stage in 0..4 {
+            builder_stage(&mut h, stage);
+            if stage > 0 {
+                log.oblige("builder_reused_with_redefinition");
+            }
+            let calls = h.calls.clone();
+            run_one(log, "bh", &Case { long_impl, w, p: &p, tb: &calls, texts: &texts, ks: &[0, 1, 2], builder: Some(&h.builder) });
+        }
     }
     let _ = case;
 }
